@@ -262,12 +262,17 @@ func gMatches(g *G, sub string) bool {
 func (e *Exec) schedule() *G {
 	rs := e.runnable()
 	if len(rs) == 0 {
-		// a quiescing main resumes when nothing else can run
+		// a quiescing goroutine resumes when nothing else can run; when several are quiescing
+		// (a hook that quiesces inside another goroutine), main is the last to resume
+		var q *G
 		for _, g := range e.gs {
-			if g.status == GQuiesce {
-				g.status = GRunnable
-				return g
+			if g.status == GQuiesce && (q == nil || q.isMain) {
+				q = g
 			}
+		}
+		if q != nil {
+			q.status = GRunnable
+			return q
 		}
 		if e.mainG.status == GBlocked {
 			e.findKey = "deadlock@" + e.harness
